@@ -269,6 +269,32 @@ def main():
     ck.add_group("put", len(put_oracle) + len(extra), ok_puts, put_desc[30:32], placed=ok_puts,
                  result_kinds={k: sum(1 for d in put_desc if d["result_kind"] == k) for k in ("fresh", "self", "sub")})
 
+    # ------------------------------------------------- G2b: merge_result (the state's ResultPath / OutputPath fields, absent vs null)
+    import asl_workflow_engine.state_engine as se_mod
+    mcases, mdesc = [], []
+    mctx = {"Execution": {"Id": "arn:x"}, "State": {"Name": "S"}}
+    for doc in docs[:60]:
+        for rp in ("absent", None, "$", "$.r", "$.a.b"):
+            for op in ("absent", None, "$", "$.a"):
+                st = {}
+                if rp != "absent":
+                    st["ResultPath"] = rp
+                if op != "absent":
+                    st["OutputPath"] = op
+                obs = observe(se_mod.merge_result, copy.deepcopy(doc), mctx, {"r": 1}, st)
+                try:
+                    mcases.append("(%s, %s, %s, %s, %s)" % (coq_json(st), coq_json(doc), coq_json(mctx), coq_json({"r": 1}), coq_result(obs)))
+                    mdesc.append({"state": st, "input": doc, "result": {"r": 1}, "observed": obs})
+                except OutOfModel:
+                    pass
+    if model_ok:
+        r = ck.eval_cases("merge_model", imp, "json * json * json * json * result json", mcases, ["c12_merge_model"], per_file=400)
+        if r is not None:
+            for i in r["c12_merge_model"][:3]:
+                ck.violation("a state's ResultPath/OutputPath fields were not applied as the States Language says (absent ResultPath = '$', null = discard the result): %r" % (mdesc[i],),
+                             {"group": "merge", "case": mdesc[i]})
+    ck.add_group("merge_result", len(mcases), len(mcases), mdesc[7:9])
+
     # ------------------------------------------------- G3: apply_path / context
     ctx = {"Execution": {"Id": "arn:x", "Input": {"k": [1, 2]}}, "State": {"Name": "S"}, "Map": {"Item": {"Index": 0}}}
     cases, descs = [], []
